@@ -175,3 +175,26 @@ def seq_history(rng, nops, nids=6, monotone_ts=True, zero_ok=True, reads=True):
 
 def seq_scenario(calls, budget=3000):
     return {"price": PRICE, "init": [], "threads": [calls], "sched": {"mode": "fixed", "seq": []}, "drain": False, "log": "macro", "budget": budget}
+
+
+def wide_conc_scenarios(rng, n=5):
+    """4 threads x 2-3 calls on a 5-order book of all hidden/plain classes: too wide for exhaustive
+    exploration, used with TLC -simulate in the thorough tier"""
+    book = [S(1, 4), I(2, 2, 5), R(3, 2, 3, 1, 1, True), order(4, "Pegged", 3), R(5, 1, 4, 0, 0, True)]
+    alpha = [Match(1), Match(3), Match(7), Match(20), Cancel(1), Cancel(2), Cancel(3), Cancel(5), Amend(1, 2), Amend(2, 1),
+             Amend(4, 5), Amend(3, 0), READ, Move(4, PRICE + 1), Upq(2, PRICE, 3)]
+    out = []
+    for k in range(n):
+        progs = []
+        fresh = 6
+        for t in range(4):
+            calls = []
+            for _ in range(rng.range(2, 3)):
+                if rng.chance(1, 6):
+                    calls.append(Add(S(fresh, rng.range(1, 4))))
+                    fresh += 1
+                else:
+                    calls.append(rng.choice(alpha))
+            progs.append(calls)
+        out.append({"init": book, "progs": progs})
+    return out
